@@ -56,11 +56,31 @@ FORMS = {
     'n3a': ['ndarray', 'list', 'fortran', 'noncontig'],
     's33': ['ndarray', 'list', 'noncontig'],
     'm33': ['ndarray', 'list', 'fortran'],
+    # a pyins table addressed by column LABELS: the same table with its columns in another
+    # order, or with an extra leading column (as read from a log file)
+    'table': ['ndarray', 'cols_permuted', 'extra_leading_col', 'cols_reversed'],
+    # an integer seed: Python int or a numpy integer (an element of an array of seeds)
+    'seed': ['ndarray', 'np_int64', 'np_int32'],
 }
 
 
 def apply_form(value, kind, form, cols=None, index=None):
     if form == 'ndarray' or kind not in FORMS:
+        return value
+    if kind == 'seed':
+        return np.int64(value) if form == 'np_int64' else np.int32(value)
+    if kind == 'table':
+        df = value
+        if form == 'cols_reversed':
+            return df[list(df.columns[::-1])].copy()
+        if form == 'cols_permuted':
+            cols = list(df.columns)
+            k = max(1, len(cols) // 2)
+            return df[cols[k:] + cols[:k]].copy()
+        if form == 'extra_leading_col':
+            out = df.copy()
+            out.insert(0, 'temperature', 20.0 + 0.01 * np.arange(len(out)))
+            return out
         return value
     a = np.asarray(value, dtype=float)
     if form == 'list':
@@ -376,6 +396,8 @@ def _(cx, r):
     t = np.sort(r.uniform(tr.index[0] - 0.1, tr.index[-1] + 0.1, int(r.integers(1, 9))))
     if r.random() < 0.3:
         t = np.r_[t, tr.index[int(r.integers(len(tr)))]]
+    if r.random() < 0.5:
+        t = t[r.permutation(len(t))]      # the function sorts; the caller need not
     state = tr if r.random() < 0.6 else tr[[c for c in tr.columns
                                             if c not in RPH_COLS or r.random() < 2]]
     if r.random() < 0.3:
@@ -546,7 +568,7 @@ def _(cx, r):
     imu = cx.pick(r, 'imu')
     return Call('strapdown.compute_increments_from_imu',
                 strapdown.compute_increments_from_imu,
-                [Arg(imu, 'plain'), Arg(['rate', 'increment'][int(r.integers(2))])],
+                [Arg(imu, 'table'), Arg(['rate', 'increment'][int(r.integers(2))])],
                 out=('increments',), schema=('increments',),
                 expect_index=np.asarray(imu.index)[1:])
 
@@ -564,7 +586,7 @@ def _(cx, r):
     k = int(r.integers(0, 6))
     chunk = _next_increments(cx, r, it, k)
     return Call('strapdown.Integrator.integrate',
-                lambda s, inc: s.integrate(inc), [Arg(it, 'self'), Arg(chunk, 'plain')],
+                lambda s, inc: s.integrate(inc), [Arg(it, 'self'), Arg(chunk, 'table')],
                 out=('trajectory',) if k >= 2 else (), schema=('trajectory',))
 
 
@@ -697,10 +719,10 @@ def _meas_ctor(kind):
                 data[BODY_COLS] = cx.n3(r, len(data), 5.0)
         sd = float(10 ** r.uniform(-1, 0.5))
         if kind == 'BodyVelocity':
-            args = [Arg(data, 'plain'), Arg(sd)]
+            args = [Arg(data, 'table'), Arg(sd)]
         else:
             lever = cx.vec3(r) if r.random() < 0.5 else None
-            args = [Arg(data, 'plain'), Arg(sd), Arg(lever, 'plain')]
+            args = [Arg(data, 'table'), Arg(sd), Arg(lever, 'plain')]
         # resolved at call time: after a module reload the class object is a new one
         return Call(f'measurements.{kind}',
                     lambda *a, _k=kind: getattr(measurements, _k)(*a), args,
@@ -813,14 +835,15 @@ def _(cx, r):
                  Arg(bias, 'vec3' if bias is not None else 'plain'),
                  Arg(noise, 'vec3' if isinstance(noise, np.ndarray) else 'plain'),
                  Arg(walk, 'vec3' if isinstance(walk, np.ndarray) else 'plain'),
-                 Arg(cx.seed(r))], out=('parameters',))
+                 Arg(cx.seed(r), 'seed')], out=('parameters',))
 
 
 @template('inertial_sensor.Parameters.from_EstimationModel')
 def _(cx, r):
     return Call('inertial_sensor.Parameters.from_EstimationModel',
                 lambda *a: inertial_sensor.Parameters.from_EstimationModel(*a),
-                [Arg(_est_model(cx, r), 'plain'), Arg(cx.seed(r))], out=('parameters',))
+                [Arg(_est_model(cx, r), 'plain'), Arg(cx.seed(r), 'seed')],
+                out=('parameters',))
 
 
 def _parameters(cx, r):
@@ -851,7 +874,7 @@ def _(cx, r):
         g = inertial_sensor.Parameters(bias=cx.vec3(r, 1e-3), rng=cx.seed(r))
     return Call('inertial_sensor.apply_imu_parameters',
                 inertial_sensor.apply_imu_parameters,
-                [Arg(imu, 'plain'), Arg(['rate', 'increment'][int(r.integers(2))]),
+                [Arg(imu, 'table'), Arg(['rate', 'increment'][int(r.integers(2))]),
                  Arg(g, 'plain', ignore=('rng', 'data_frame')),
                  Arg(a, 'plain', ignore=('rng', 'data_frame'))],
                 out=('imu',), schema=('imu',), expect_index=np.asarray(imu.index))
@@ -903,8 +926,9 @@ def _gen_meas(kind, fn, cols):
     def build(cx, r):
         tr = cx.traj(r)
         return Call(f'sim.{fn.__name__}', fn,
-                    [Arg(tr, 'plain'), Arg(float(10 ** r.uniform(-1, 0.5))),
-                     Arg(cx.seed(r))], schema=(kind,), expect_index=np.asarray(tr.index))
+                    [Arg(tr, 'table'), Arg(float(10 ** r.uniform(-1, 0.5))),
+                     Arg(cx.seed(r), 'seed')], schema=(kind,),
+                    expect_index=np.asarray(tr.index))
     return build
 
 
@@ -921,7 +945,7 @@ def _(cx, r):
     return Call('sim.generate_pva_error', sim.generate_pva_error,
                 [Arg(float(r.uniform(0.1, 10))), Arg(float(r.uniform(0.01, 1))),
                  Arg(float(r.uniform(0.01, 1))), Arg(float(r.uniform(0.01, 2))),
-                 Arg(cx.seed(r))], out=('pva_error',), schema=('pva_error',))
+                 Arg(cx.seed(r), 'seed')], out=('pva_error',), schema=('pva_error',))
 
 
 @template('sim.perturb_pva')
@@ -966,6 +990,12 @@ def _filter_common(cx, r):
     kinds = [k for k in ('Position', 'NedVelocity', 'BodyVelocity') if r.random() < 0.5]
     for k in kinds:
         data = _meas_table(cx, r, k)
+        if r.random() < 0.5:
+            # samples outside the processed span (before the start / after the end)
+            extra = data.iloc[[0, -1]].copy()
+            extra.index = [float(traj.index[0]) - 1.0 - float(r.random()),
+                           float(traj.index[-1]) + 1.0 + float(r.random())]
+            data = pd.concat([extra.iloc[:1], data, extra.iloc[1:]])
         sd = float(10 ** r.uniform(-0.5, 0.5))
         meas.append(measurements.BodyVelocity(data, sd) if k == 'BodyVelocity'
                     else getattr(measurements, k)(data, sd,
@@ -990,14 +1020,14 @@ def _(cx, r):
     init = traj.iloc[0].copy()
     return Call('filters.run_feedback_filter',
                 lambda *a, **k: dict(filters.run_feedback_filter(*a, **k)),
-                [Arg(init, 'plain')] + [Arg(s) for s in sds] + [Arg(inc, 'plain')], kw,
+                [Arg(init, 'plain')] + [Arg(s) for s in sds] + [Arg(inc, 'table')], kw,
                 schema=('filter_result',))
 
 
 @template('filters.run_feedforward_filter')
 def _(cx, r):
     inc, traj, sds, kw = _filter_common(cx, r)
-    kw['increments'] = Arg(inc, 'plain')
+    kw['increments'] = Arg(inc, 'table')
     nominal = traj if r.random() < 0.5 else traj.copy()
     return Call('filters.run_feedforward_filter',
                 lambda *a, **k: dict(filters.run_feedforward_filter(*a, **k)),
